@@ -37,6 +37,7 @@ pub struct W {
     pub drop_all: u32,
     pub await_: u32,
     pub join: u32,
+    pub join_park: u32,
     pub query: u32,
     pub yield_: u32,
     pub sleep: u32,
@@ -79,6 +80,7 @@ impl W {
             drop_all: 0,
             await_: 0,
             join: 0,
+            join_park: 0,
             query: 0,
             yield_: 0,
             sleep: 0,
@@ -243,6 +245,7 @@ impl<'r> G<'r> {
             w.yield_,
             w.sleep,
             if has(self, &anyk) { w.fork } else { 0 },
+            if has(self, &ownk) { w.join_park } else { 0 },
         ];
         if ws.iter().all(|x| *x == 0) {
             return false;
@@ -396,6 +399,13 @@ impl<'r> G<'r> {
             21 => {
                 let d = self.dur();
                 self.prog.clients[c].push(Op::Sleep(d));
+            }
+            23 => {
+                let slot = pick(self, &ownk);
+                let a = self.sk[c][slot as usize].a;
+                let polls = self.rng.range(0, 2) as u8;
+                push(self, SK { hk: Hk::Join, a });
+                self.prog.clients[c].push(Op::JoinPark { slot, polls });
             }
             _ => {
                 // fork: move 1-2 random handles to a new client which runs 1-3 ops
@@ -733,6 +743,7 @@ pub fn owning(rng: &mut Rng) -> Program {
     w.to_addr = 8;
     w.drop = 6;
     w.join = 16;
+    w.join_park = 6;
     w.await_ = 3;
     w.yield_ = 5;
     w.sleep = 4;
